@@ -6,6 +6,7 @@
 import CdiModel.Schema
 import CdiModel.K8s
 import CdiModel.Generated.SchemaGen
+import CdiModel.Generated.Facts
 namespace Cdi.SchemaGlue
 open Cdi
 
@@ -58,6 +59,16 @@ def runsContents (dataBothEncodings : Bool) : Entry → Bool
   | .reader => false
   | .readAndValidate => false
   | .typed => false
+
+/-- the exported method of `*Schema` behind each entry point of the model -/
+def entryMethod : Entry → String
+  | .dataJson => "ValidateData"
+  | .dataYaml => "ValidateData"
+  | .fileJson => "ValidateFile"
+  | .fileYaml => "ValidateFile"
+  | .reader => "ValidateReader"
+  | .readAndValidate => "ReadAndValidate"
+  | .typed => "ValidateType"
 
 /-- verdict of an entry point on a parsed document (`true` = nil error); the content check
 belongs to a real schema: a nil Schema and the "none" schema (no compiled schema) skip it -/
